@@ -121,7 +121,14 @@ fn links(k: u8, t: [u32; 4]) -> Ports {
 fn n2(k: u8) {
     // parent link report = concrete pattern k (16 harnesses enumerate all of them); child link report, both DC flags symbolic
     let mut devs = [dev(0, links(k, [100, 900, 1000, 1100]), vk::any()), dev(1, any_links([200, 600, 700, 800]), vk::any())];
+    let child_open = devs[1].ports.open_ports();
     let r = assign_parent_relationships(&mut devs);
+    // completeness: two devices that CAN form a tree (the first has a port left for the second, the second has its entry port
+    // open) are accepted - an error needs a reason
+    if (k.count_ones() >= 2) && child_open >= 1 {
+        assert!(r.is_ok(), "a parent with a free downstream port and a child with an open port form a tree");
+        assert!(devs[1].parent_index == Some(0));
+    }
     check_result(&devs, r);
 }
 
@@ -136,7 +143,7 @@ macro_rules! n2_harness {
     };
 }
 
-//@h name=dc_n2_p03 props=C17 bounded="N=2 devices; parent link pattern = ports 0+3 open (passthrough); child link report and DC flags symbolic; port times concrete" fn=src/dc.rs::assign_parent_relationships obligation="Ok or Err(Topology), never a panic; parents precede children; DC delays non-decreasing"
+//@h name=dc_n2_p03 props=C17 bounded="N=2 devices; parent link pattern = ports 0+3 open (passthrough); child link report and DC flags symbolic; port times concrete" fn=src/dc.rs::assign_parent_relationships obligation="Ok or Err(Topology), never a panic; parents precede children; DC delays non-decreasing; a parent with >= 2 open ports and a child with >= 1 open port are ACCEPTED and the child's parent is device 0"
 n2_harness!(dc_n2_p03, 0b0011);
 //@h name=dc_n2_p031 props=C17 bounded="N=2; parent = fork (ports 0,3,1 open); child symbolic" fn=src/dc.rs::assign_parent_relationships
 n2_harness!(dc_n2_p031, 0b0111);
